@@ -147,3 +147,58 @@ func VerifC20_Partitions() {
 	}
 	verif.Reach("end")
 }
+
+// slotListener records every sample in its own slot (index taken atomically), so that concurrent
+// admissions can be compared with the in-flight counts their tokens report.
+type slotListener struct {
+	n    int32
+	a, b float64
+}
+
+func (s *slotListener) AddSample(v float64, tags ...string) {
+	if atomicAdd(&s.n) == 1 {
+		s.a = v
+	} else {
+		s.b = v
+	}
+}
+
+type slotRegistry struct {
+	core.EmptyMetricRegistry
+	l *slotListener
+}
+
+func (r *slotRegistry) RegisterDistribution(ID string, tags ...string) core.MetricSampleListener {
+	return r.l
+}
+
+// VerifC20_Conc_InflightSample: two racing admissions on one strategy (simple / precise), all
+// interleavings: the two in-flight samples emitted are exactly the in-flight counts at the two
+// admission decisions (the counts the tokens report), as multisets.
+//
+//verif:harness property=C20 theory=bv tier=quick
+func VerifC20_Conc_InflightSample() {
+	sl := &slotListener{}
+	reg := &slotRegistry{l: sl}
+	var s core.Strategy
+	if verif.Choice("strategy", 2) == 0 {
+		s = NewSimpleStrategyWithMetricRegistry(3, reg)
+	} else {
+		s = NewPreciseStrategyWithMetricRegistry(3, reg)
+	}
+	var n1, n2 int
+	verif.Spawn("a1", func() {
+		tok, _ := s.TryAcquire(context.Background())
+		n1 = tok.InFlightCount()
+	})
+	verif.Spawn("a2", func() {
+		tok, _ := s.TryAcquire(context.Background())
+		n2 = tok.InFlightCount()
+	})
+	verif.Parallel()
+	a, b := sl.a, sl.b
+	verif.Assert("two-samples", sl.n == 2)
+	verif.Assert("samples-are-the-admission-counts", (a == float64(n1) && b == float64(n2)) || (a == float64(n2) && b == float64(n1)))
+	verif.Assert("admission-counts-distinct", n1 != n2 && n1+n2 == 3)
+	verif.Reach("end")
+}
